@@ -677,7 +677,7 @@ def run(ctx):
               round(cl["sound:>=3-calls-and-an-accepted-move"] / max(1, cl["kind:sound"]), 3), 0.3)
     ctx.floor("soundness runs that returned a problem", cl["sound:returned-a-problem"], 50)
     ctx.floor("other seed gives another sequence (share, sanity of the check)",
-              round(cl["repro:other-seed-gives-other-sequence"] / max(1, cl["kind:repro"]), 3), 0.7)
+              round(cl["repro:other-seed-gives-other-sequence"] / max(1, cl["kind:repro"]), 3), 0.5)
     for o in ("symmetry", "disallow_adjacent", "use_move"):
         ctx.floor("array builders with " + o, cl["array:" + o], 40)
     ctx.floor("segmentation builders", cl["builder:seg"], 40)
